@@ -466,7 +466,16 @@ class PVLEncoder(object):
             return True
 
         tok = Token(s, grammar=self.grammar, decoder=self.decoder)
-        return not tok.is_unquoted_string()
+        if len(s) == 0 or not tok.is_unquoted_string():
+            return True
+
+        # Written bare, the text must read back as this very string, which
+        # NULL, TRUE, FALSE and the reserved keywords (in any letter case)
+        # would not.
+        try:
+            return self.decoder.decode_simple_value(tok) != s
+        except ValueError:
+            return True
 
     def encode_string(self, value) -> str:
         """Returns a ``str`` formatted as a PVL String based
@@ -635,7 +644,7 @@ class ODLEncoder(PVLEncoder):
 
         Overrides parent function.
         """
-        return not self.decoder.is_identifier(s)
+        return not self.decoder.is_identifier(s) or super().needs_quotes(s)
 
     def is_assignment_statement(self, s) -> bool:
         """Returns true if *s* is an ODL Assignment Statement, false otherwise.
@@ -751,7 +760,7 @@ class ODLEncoder(PVLEncoder):
         """Extends parent function by appropriately quoting Symbol
         Strings.
         """
-        if self.decoder.is_identifier(value):
+        if not self.needs_quotes(value):
             return value
         elif self.is_symbol(value):
             return "'" + value + "'"
@@ -1073,7 +1082,7 @@ class PDSLabelEncoder(ODLEncoder):
         which typically means that they are double-quoted and not
         single-quoted.
         """
-        if self.decoder.is_identifier(value):
+        if not self.needs_quotes(value):
             return value
         elif self.is_symbol(value) and self.symbol_single_quote:
             return "'" + value + "'"
